@@ -42,10 +42,22 @@ func builtinStringFromCharCode(call FunctionCall) Value {
 	return string16Value(chrList)
 }
 
+// thisStringObjecter returns the UTF-16 view of ToString(this). The methods of
+// String.prototype are generic: the receiver need not be a String object.
+func thisStringObjecter(call FunctionCall) stringObjecter {
+	if obj := call.This.object(); obj != nil && obj.class == classStringName {
+		if str := obj.stringValue(); str != nil {
+			return str
+		}
+	}
+	return newStringObject(call.This.string())
+}
+
 func builtinStringCharAt(call FunctionCall) Value {
 	checkObjectCoercible(call.runtime, call.This)
+	str := thisStringObjecter(call)
 	idx := int(call.Argument(0).number().int64)
-	chr := stringAt(call.This.object().stringValue(), idx)
+	chr := stringAt(str, idx)
 	if chr == stringAtOutOfRange {
 		return stringValue("")
 	}
@@ -54,8 +66,9 @@ func builtinStringCharAt(call FunctionCall) Value {
 
 func builtinStringCharCodeAt(call FunctionCall) Value {
 	checkObjectCoercible(call.runtime, call.This)
+	str := thisStringObjecter(call)
 	idx := int(call.Argument(0).number().int64)
-	chr := stringAt(call.This.object().stringValue(), idx)
+	chr := stringAt(str, idx)
 	if chr == stringAtOutOfRange {
 		return NaNValue()
 	}
